@@ -16,14 +16,14 @@ Theorem C06_mem_state_depends_on_set_only : forall s xs ys s1 s2,
 Proof. exact (set_dependence hic). Qed.
 
 (* merging the sketches of two streams yields exactly the sketch that received both *)
-Theorem C06_mem_merge_is_union : forall m s0 xs ys a b u mm,
-  hll_new m = Ok s0 -> upd_all hic s0 xs = Ok a -> upd_all hic s0 ys = Ok b ->
+Theorem C06_mem_merge_is_union : forall m al s0 xs ys a b u mm,
+  hll_new m al = Ok s0 -> upd_all hic s0 xs = Ok a -> upd_all hic s0 ys = Ok b ->
   upd_all hic s0 (xs ++ ys) = Ok u -> hll_merge a b = Ok mm -> mm = u.
 Proof. exact (merge_is_union hic). Qed.
 
 (* later updates of a merged sketch behave as on that single sketch *)
-Theorem C06_mem_merge_then_update : forall m s0 xs ys zs a b mm r1 r2,
-  hll_new m = Ok s0 -> upd_all hic s0 xs = Ok a -> upd_all hic s0 ys = Ok b ->
+Theorem C06_mem_merge_then_update : forall m al s0 xs ys zs a b mm r1 r2,
+  hll_new m al = Ok s0 -> upd_all hic s0 xs = Ok a -> upd_all hic s0 ys = Ok b ->
   hll_merge a b = Ok mm -> upd_all hic mm zs = Ok r1 ->
   upd_all hic s0 ((xs ++ ys) ++ zs) = Ok r2 -> r1 = r2.
 Proof. exact (merge_then_update hic). Qed.
@@ -48,7 +48,7 @@ Theorem C06_merge_mismatch_rejected : forall a b, h_m a <> h_m b -> hll_merge a 
 Proof. exact merge_mismatch. Qed.
 
 (* the hypotheses are met along every history: constructor and updates keep hwf *)
-Theorem C06_reachable_wf : forall m s, hll_new m = Ok s -> hwf s /\ h_m s = m /\ h_p s = N.log2 m.
+Theorem C06_reachable_wf : forall m al s, hll_new m al = Ok s -> hwf s /\ h_m s = m /\ h_p s = N.log2 m.
 Proof. exact new_wf. Qed.
 
 (* regression witness of the repaired defect: with the old update rule
@@ -58,7 +58,7 @@ Definition w_hash (x : bytes) : N :=
   match x with [1] => 2 ^ 40 + 200 * 2 ^ 25 | _ => 2 ^ 40 + 256 * 2 ^ 25 end.
 Definition regs_of (o : outcome hll) : list N := match o with Ok s => h_regs s | _ => [] end.
 Example C06_witness_now_order_independent : exists s,
-  hll_new 128 = Ok s /\
+  hll_new 128 0 = Ok s /\
   regs_of (upd_all (hic_of w_hash) s [[1]; [2]]) = regs_of (upd_all (hic_of w_hash) s [[2]; [1]]) /\
   nth 17 (regs_of (upd_all (hic_of w_hash) s [[1]; [2]])) 0 = 200.
 Proof. eexists; split; [reflexivity|]. vm_compute. split; reflexivity. Qed.
